@@ -17,27 +17,6 @@ instance : Fact (Nat.Prime 13) := ⟨by norm_num⟩
 abbrev TF := ZMod 13
 abbrev TG := TF × TF
 
-theorem natLE_leNat_inv (b : Bytes) : natLE (leNat b) b.length = b := by
-  induction b with
-  | nil => rfl
-  | cons x xs ih =>
-    simp only [leNat, List.foldr_cons, List.length_cons, natLE]
-    have hx : x.toNat < 256 := x.toNat_lt
-    have h1 : (x.toNat + 256 * List.foldr (fun x acc => x.toNat + 256 * acc) 0 xs) % 256 = x.toNat := by omega
-    have h2 : (x.toNat + 256 * List.foldr (fun x acc => x.toNat + 256 * acc) 0 xs) / 256
-        = List.foldr (fun x acc => x.toNat + 256 * acc) 0 xs := by omega
-    rw [h1, h2]
-    congr 1
-    simp
-
-theorem leNat_lt (b : Bytes) : leNat b < 256 ^ b.length := by
-  induction b with
-  | nil => simp [leNat]
-  | cons x xs ih =>
-    simp only [leNat, List.foldr_cons, List.length_cons, pow_succ] at *
-    have hx : x.toNat < 256 := x.toNat_lt
-    omega
-
 def scCanon (b : Bytes) : Option TF := if b.length = 32 ∧ leNat b < 13 then some (leNat b : TF) else none
 def scEnc (s : TF) : Bytes := natLE s.val 32
 def ptDec (b : Bytes) : Option TG :=
